@@ -176,7 +176,32 @@ def bits_bound(t):
     return size(t)
 
 
+def huge_items():
+    """'however large the numbers get': results of ten to forty thousand digits, delivered and displayed in full.
+    (expected texts are computed here with CPython's digit limit lifted for the moment; the workers keep whatever
+    limit the implementation itself sets)"""
+    import sys
+    from fractions import Fraction as F
+    old = sys.get_int_max_str_digits() if hasattr(sys, "get_int_max_str_digits") else None
+    if old is not None:
+        sys.set_int_max_str_digits(0)
+    try:
+        cases = [("10^12000", 10 ** 12000), ("3^30000", 3 ** 30000), ("(10^6000+1)*(10^6000-1)", 10 ** 12000 - 1),
+                 ("-(7^15000)", -(7 ** 15000)), ("2^100000 % 10^20000", 2 ** 100000 % 10 ** 20000),
+                 ("(10^12000+1)/3^2", F(10 ** 12000 + 1, 9)), ("1e12000 + 1 - 1", 10 ** 12000),
+                 ("abs(-(10^40000))", 10 ** 40000), ("floor((10^15000+1)/7)", (10 ** 15000 + 1) // 7)]
+        items = []
+        for text, v in cases:
+            want = "I:%d" % v if isinstance(v, int) else "F:%d/%d" % (v.numerator, v.denominator)
+            items.append(([text], want, "exact arithmetic with results beyond 10000 digits"))
+        return items
+    finally:
+        if old is not None:
+            sys.set_int_max_str_digits(old)
+
+
 def run(ctx):
+    C.expect_sessions(ctx["report"], ctx["rundir"], "C01", huge_items(), kind="huge-result")
     rep, tier, seed = ctx["report"], ctx["tier"], ctx["seed"]
     rng = random.Random(seed * 7919 + 1)
     n_rand = 3000 if tier == "quick" else 60000
